@@ -441,6 +441,62 @@ def rule_F(ck, units, control):
         ck.brk('F.binary-search-sorted: the positive control verif_control::has_entry (tus/controls.cpp) was not recognised - the rule is blind')
 
 
+def rule_J(ck, units, floor=2):
+    """J.row-scan-order-free: the adapters see the user's matrix as it is - rows in arbitrary order.  A scan over the entries of a row
+    (`for (auto a = row_begin(A, i); a; ++a)`) may end early only on an equality (the entry looked for was found), never on an ordering
+    comparison of the column with the row index or a bound (`a && a.col() <= i`, `if (a.col() > i) break;`): that is correct on sorted
+    rows only."""
+    ck.rule('J.row-scan-order-free', 'adapters (amgcl/adapter/**): a scan over a row of the user matrix runs while the iterator is valid and is left early only on an equality test of the '
+                                     'column, never on an ordering comparison (rows of a user matrix are not sorted)', floor)
+    seen = set()
+    for u in units.values():
+        for f in u.funcs:
+            if f.body is None or not f.rel().startswith('amgcl/adapter/') or (f.file, f.line) in seen:
+                continue
+            loops = []
+            for n in f.nodes.values():
+                if n['k'] != 'for' or n.get('init') is None:
+                    continue
+                its = [v for d in walk(n['init']) if d['k'] == 'decl' for v in d['v'] if v.get('init') is not None
+                       and unwrap(v['init'])['k'] == 'call' and (unwrap(v['init']).get('f') or '').endswith('row_begin')]
+                if its:
+                    loops.append((n, its[0]))
+            if not loops:
+                continue
+            seen.add((f.file, f.line))
+            k = 0
+            for L, it in loops:
+                k += 1
+
+                def col_order_cmp(e):
+                    for x in walk(e):
+                        if x['k'] == 'bin' and x['op'] in ('<', '>', '<=', '>=') and any(y['k'] == 'call' and y.get('m') == 'col' for y in walk(x)):
+                            return x
+                    return None
+                det = ''
+                c = L.get('c')
+                bad = col_order_cmp(c) if c is not None else None
+                if bad is not None:
+                    det = 'the row scan at %s runs only while `%s`: entries stored after the first one that fails the test are never seen' % (f.where(L), show(bad))
+                else:
+                    # locals holding the column: c = a.col()
+                    colvars = {v['d'] for d in walk(L['b']) if d['k'] == 'decl' for v in d['v'] if v.get('init') is not None and any(y['k'] == 'call' and y.get('m') == 'col' for y in walk(v['init']))}
+                    for b in walk(L['b']):
+                        if b['k'] != 'break':
+                            continue
+                        inner = [a for a in f.ancestors(b) if a['k'] in ('for', 'while', 'do', 'rfor', 'switch')]
+                        if not inner or inner[0] is not L:
+                            continue
+                        for a in f.ancestors(b):
+                            if a is L:
+                                break
+                            if a['k'] == 'if':
+                                for x in walk(a['c']):
+                                    if x['k'] == 'bin' and x['op'] in ('<', '>', '<=', '>=') and (any(y['k'] == 'call' and y.get('m') == 'col' for y in walk(x)) or any(y['k'] == 'ref' and y['d'] in colvars for y in walk(x))):
+                                        det = 'the row scan at %s is left by `break` when `%s`: that ends the scan correctly only on sorted rows' % (f.where(L), show(x))
+                ck.ob('J.row-scan-order-free', '%s|%s#%d' % (f.rel(), '::'.join(f.q.split('::')[-2:]), k), f.where(L), not det, det)
+
+
 def rule_G(ck, control):
     """moving a CRS matrix (or swapping numa_vectors) hands over every data member - in particular own_data together with the three arrays:
     otherwise borrowed (zero-copy) arrays end up in an object that believes it owns them, and delete[] is called on user memory"""
@@ -614,5 +670,6 @@ def main(tier):
     rule_G(ck, cu['controls'])
     rule_H(ck, units)
     rule_I(ck, units)
+    rule_J(ck, units)
     ck.assumptions += ['that adapters expose the same entries (rows/cols/nonzeros, spmv agreement) and the algebra of reorder / scaled_problem are not decided']
     return ck.finish()
